@@ -177,6 +177,21 @@ impl Kernels {
         if let Some(Err(_)) = &sk {
             st.count(&format!("kernel.op{:02}.skrifa_panics", op));
         }
+        // branch counters of RoundState::round: sign of the distance, clamp fired
+        if (10..=17).contains(&op) {
+            st.count(&format!("kernel.op{:02}.{}", op, if a[3] >= 0 { "d_nonneg" } else { "d_neg" }));
+            if let Some(Ok(r)) = &sk {
+                if a[3] != 0 && (*r == 0 || ((op == 16 || op == 17) && r.abs() == a[1].abs() && (*r >= 0) != (a[3] >= 0 || a[1] >= 0))) {
+                    st.count(&format!("kernel.op{:02}.clamp_or_zero", op));
+                }
+            }
+        }
+        if op == 4 {
+            st.count(&format!("kernel.op04.signs_{}{}{}", (a[0] < 0) as u8, (a[1] < 0) as u8, (a[2] < 0) as u8));
+            if a[2] == 0 {
+                st.count("kernel.op04.c_zero");
+            }
+        }
         // oracle 1: both real implementations agree (mod 2^32: FreeType's `long` is 64 bits wide)
         if let (Some(Ok(s)), Some(f)) = (&sk, &ft) {
             if !in_i32(*f as i128) {
@@ -373,6 +388,12 @@ fn kernels(k: &mut Kernels, rng: &mut Rng, thorough: bool) {
             let v = vec![any(rng, &grid), any(rng, &grid), any(rng, &grid), any(rng, &grid)];
             k.emit(op, v);
         }
+        // small arbitrary states and distances: the clamp branches (val crossing 0) are dense here
+        for _ in 0..1200 * mult {
+            let per = *rng.pick(&[3i64, 5, 7, 23, 32, 45, 46, 64, 91, 128, -3, -46]);
+            let v = vec![rng.range(-70, 70), rng.range(-70, 70), per, rng.range(-200, 200)];
+            k.emit(op, v);
+        }
     }
 }
 
@@ -403,7 +424,9 @@ fn witnesses(st: &mut Stats) {
     };
     only("muldiv_noround_wrapping_refuted", 4, &[i32::MIN as i64, 2, 4]);
     only("round_grid_wrapping_refuted", 10, &[0, 0, 64, i32::MAX as i64]);
-    only("round_half_grid_wrapping_refuted", 11, &[0, 0, 64, i32::MAX as i64]);
+    only("round_half_grid_wrapping_refuted", 11, &[0, 0, 64, i32::MIN as i64]);
+    only("round_super_wrapping_refuted", 16, &[40, 0, 64, i32::MAX as i64]);
+    only("div_instruction_wrapping_refuted", 4, &[i32::MIN as i64, 64, 128]);
     st.v.insert("witnesses".into(), serde_json::Value::Object(w));
 }
 
